@@ -305,6 +305,18 @@ func Run(c *core.Ctx) {
 				back = tr.RIDToID(rid, h.Params)
 				ok = true
 			}
+			// the service's own entry point routes the resource id the same way
+			svc := res.NewService("lib")
+			svc.SetLogger(nil)
+			svc.Handle("book.$id", res.GetResource(func(r res.GetRequest) { r.NotFound() }))
+			r, err := svc.Resource(rid)
+			if !realValidPart(id) {
+				// (an id with '?', '.', white space ... is no name part: a resource id built from it means something else)
+			} else if (err == nil) != ok {
+				c.Violate(core.Violation{Signature: map[string]string{"engine": "pattern", "kind": "routing-disagrees", "id": id}, Text: fmt.Sprintf("Mux.GetHandler(%q) matches=%v but Service.Resource says %v", rid, ok, err), Replay: rec{"id": id, "rid": rid}})
+			} else if err == nil && r.PathParam("id") != back {
+				c.Violate(core.Violation{Signature: map[string]string{"engine": "pattern", "kind": "routing-disagrees", "id": id}, Text: fmt.Sprintf("Service.Resource(%q) has id parameter %q, the transformer gives back %q", rid, r.PathParam("id"), back), Replay: rec{"id": id, "rid": rid}})
+			}
 		})
 		if pv != nil {
 			if realValidPart(id) {
